@@ -130,13 +130,13 @@ def check(prop, tier, seed, scratch, plan, replay, K):
                 print("KNOWN-FINDING: property=%s %s" % (prop, re.sub(r"^property=\S+\s*", "", k[0][2][len("known:"):].strip())))
             continue
         new_viol.append(x)
-    os.makedirs(os.path.join(K.VERIF, "replays"), exist_ok=True)
+    os.makedirs(os.path.join(K.OUT, "replays"), exist_ok=True)
     reported = set()
     for (name, d, cpath, r, v) in new_viol:
         if v[1] in reported or len(reported) >= 5:
             continue
         reported.add(v[1])
-        rp = os.path.join(K.VERIF, "replays", "%s-%s-%d.ndjson" % (prop, re.sub(r"[^A-Za-z0-9]+", "_", str(v[1]))[:40], seed))
+        rp = os.path.join(K.OUT, "replays", "%s-%s-%d.ndjson" % (prop, re.sub(r"[^A-Za-z0-9]+", "_", str(v[1]))[:40], seed))
         with open(cpath) as f, open(rp, "w") as o:
             for l in f:
                 if json.loads(l).get("src") == r["src"]:
@@ -156,7 +156,7 @@ def check(prop, tier, seed, scratch, plan, replay, K):
         import plans as P
         extra_rc = K.check_ctl(prop, tier, seed, sub, plan["also_ctl"], None)
         try:
-            ctl_ev = json.load(open(os.path.join(K.VERIF, "evidence", prop + ".json")))
+            ctl_ev = json.load(open(os.path.join(K.OUT, "evidence", prop + ".json")))
             coverage["controller_level"] = ctl_ev["coverage"]
             coverage["states"] += ctl_ev["coverage"]["states"]
             coverage["transitions"] += ctl_ev["coverage"]["transitions"]
